@@ -27,7 +27,10 @@ var verifC05Src = []string{
 	"replace into t (a, b) using (a) values (@x, @p)",          // 13: the key may match several rows or none
 	"if 1 = 1 then update t set b = @p where a < @x; end if;",  // 14: statement inside a block, table declared outside
 	"if 1 = 1 then insert into t values (@p, @q, @r); delete from t where a < @x; end if;", // 15
+	"update t set a = b, b = a where id <> 1",                  // 16: every SET value is computed from the old row
 }
+
+var verifC05Rollback []parser.Statement
 
 var verifC05Stmts []parser.Statement
 
@@ -36,6 +39,7 @@ func VerifC05Setup() {
 	for i, s := range verifC05Src {
 		verifC05Stmts[i] = verifParse(s)[0]
 	}
+	verifC05Rollback = verifParse("rollback;")
 }
 
 type verifCellSpec struct {
@@ -205,6 +209,14 @@ func VerifC05Statements() {
 			}
 		}
 		ref = keep
+	case 16:
+		want = 0
+		for i := range ref {
+			if i != 1 {
+				ref[i].cells[1], ref[i].cells[2] = b[i], a[i]
+				want++
+			}
+		}
 	case 12:
 		want = 0
 		for i := range ref {
@@ -230,5 +242,16 @@ func VerifC05Statements() {
 	}
 	verifObserve("rows", int64(got.RecordLen()))
 	verifObserve("count", int64(cnt))
+	// ROLLBACK brings back the table as declared: the statement did not write through to the
+	// restore point
+	_, err = proc.Execute(verifCtx(), verifC05Rollback)
+	verifAssert("rollback succeeds", err == nil)
+	back := verifStored(scope, "T")
+	verifAssert("rollback: number of rows and columns", back.RecordLen() == n && back.FieldLen() == 3)
+	for i := 0; i < back.RecordLen() && i < n; i++ {
+		if len(back.RecordSet[i]) == 3 {
+			verifAssert("rollback: cells as declared", verifCellIs(back.RecordSet[i][0][0], verifCellSpec{v: int64(i)}) && verifCellIs(back.RecordSet[i][1][0], a[i]) && verifCellIs(back.RecordSet[i][2][0], b[i]))
+		}
+	}
 	verifReach("end")
 }
